@@ -23,15 +23,32 @@ RULE = ("(a) LASFile objects built from JSON-able specs (header items in ~Versio
         "model's expression evaluated in floats (exact) and allclose(depth_m, depth_ft*0.3048, rtol=1e-12). non-trivial = the object holds a "
         "non-finite or numpy or text value, a duplicate mnemonic, or (units) a recognised / conflicting spelling")
 TRUSTED = ["json module (escaping, float repr, layout), csv.writer/reader (quoting, str() of cells), numpy (.item(), vstack, str of float64), "
-           "openpyxl, pandas: Lean models lasio's decision logic only (type dispatch, NaN handling, which rows are written, unit table logic)",
+           "openpyxl (stores floats with 16 significant digits: workbook cells are compared with rel_tol 1e-15), pandas: Lean models lasio's "
+           "decision logic only (type dispatch, NaN handling, which rows are written, unit table logic)",
            "IEEE rounding of depth_m / depth_ft is not modelled (exact rational identity in Lean; allclose rtol=1e-12 in the oracle)"]
 ASSUMPTIONS = ["session mnemonics within a section are pairwise distinct (C13 under NoSuffixClash); with a repeated key dictview() drops a value "
                "(C18_json_duplicate_key_drops)",
                "header values are int / float / str / None / bool or numpy scalars of those kinds; containers are outside the property",
+               "df(): a text curve whose every cell is a float literal is compared as numbers (in `las.data` it cannot be told from a numeric "
+               "curve; the reader never produces one)",
                "unit strings over the modelled alphabet (ASCII, Latin-1 letters except ß/µ/ÿ, basic Cyrillic and Greek): str.upper is "
                "length-preserving there"]
 
 SCRATCH = os.path.join(fw.ROOT, ".scratch", "c18")
+# the recognised spellings the property was written against (defaults.DEPTH_UNITS at the pinned tree): losing one of them is a
+# violation even though the Lean obligations, which quantify over the CURRENT table, would still hold
+PINNED_UNITS = {"FT": ("FT", "F", "FEET", "FOOT"),
+                "M": ("M", "METER", "METERS", "METRE", "METRES", "\u043c\u0435\u0442\u0435\u0440", "\u043c"),
+                ".1IN": (".1IN", "0.1IN", ".1INCH", "0.1INCH")}
+
+
+def unit_table():
+    from lasio import defaults
+    t = {k: list(v) for k, v in PINNED_UNITS.items()}
+    for k, ps in defaults.DEPTH_UNITS.items():
+        t.setdefault(k, [])
+        t[k] += [p for p in ps if p not in t[k]]
+    return t
 
 
 # ------------------------------------------------------------------------------------------------ specs <-> objects
@@ -378,12 +395,18 @@ def check_csv(run, las, case, pend, full=True):
         try:
             las.to_csv(buf, mnemonics=mn, units=un, units_loc=loc, **kw)
         except Exception as e:
-            run.fail("csv-raises", dict(c2, no_curves=(ncur == 0)), dict(exc=repr(e)))
+            run.fail("csv-raises", c2, dict(exc=repr(e)))
             if ncur == 0:
                 return
             continue
         text = buf.getvalue()
         rows = list(csv.reader(io.StringIO(text, newline="")))
+        if run.model is not None:
+            if cells is None:
+                d = las.data
+                cells = [[str(x) for x in d[i, :]] for i in range(d.shape[0])]
+            pend.append(("to_csv", c2, {"op": "vw.csv", "mnemonics": mn, "units": un, "units_loc": loc, "origs": origs, "cunits": cunits,
+                                        "rows": cells}, rows))
         term = lt or "\n"
         if text and not text.endswith(term):
             run.fail("csv-lineterminator", c2, dict(tail=text[-10:]))
@@ -411,12 +434,6 @@ def check_csv(run, las, case, pend, full=True):
             if len(r) != ncur or not all(cell_matches(r[j], las.curves[j].data[i], numeric_curve(las.curves[j])) for j in range(ncur)):
                 run.fail("csv-field-values", c2, dict(row=i, observed=r, expected=[repr(c.data[i]) for c in las.curves]))
                 break
-        if run.model is not None:
-            if cells is None:
-                d = las.data
-                cells = [[str(x) for x in d[i, :]] for i in range(d.shape[0])]
-            pend.append(("to_csv", c2, {"op": "vw.csv", "mnemonics": mn, "units": un, "units_loc": loc, "origs": origs, "cunits": cunits,
-                                        "rows": cells}, rows))
 
 
 # ------------------------------------------------------------------------------------------------ Excel
@@ -431,9 +448,10 @@ def xl_same(cell, v):
     f = float(v)
     if math.isnan(f):
         return cell is None or cell == ""
-    if math.isinf(f):
-        return True      # the property speaks about NaN only; openpyxl's treatment of inf is its own
-    return isinstance(cell, (int, float)) and float(cell) == f
+    if math.isinf(f) or abs(f) > 1e308:
+        return True      # the property speaks about NaN only; openpyxl's treatment of inf (and of DBL_MAX, which it rounds to inf) is its own
+    # openpyxl writes floats with 16 significant digits (0.1 + 0.2 comes back as 0.3): equal to Excel's precision
+    return isinstance(cell, (int, float)) and math.isclose(float(cell), f, rel_tol=1e-15, abs_tol=1e-300)
 
 
 def check_excel(run, las, case):
@@ -496,11 +514,29 @@ def df_same(a, x, numeric):
     return str(a) == str(x) and isinstance(a, (str, np.str_))
 
 
+def floatlike(x):
+    try:
+        float(str(x))
+        return True
+    except ValueError:
+        return False
+
+
+def df_numeric(c):
+    """df() is built from the stacked `las.data`, where a text curve whose EVERY cell is a float literal cannot be told from a numeric
+    one (no file read by lasio yields such a curve: the reader would have made it numeric) — it is compared as numbers"""
+    return numeric_curve(c) or (len(c.data) > 0 and all(floatlike(x) for x in c.data))
+
+
+def df_same_loose(a, x):
+    fa, fx = float(str(a)), float(str(x))
+    return (math.isnan(fa) and math.isnan(fx)) or fa == fx
+
+
 def check_df(run, spec_or_las, case, rebuild):
     las = spec_or_las
     ncur = len(las.curves)
-    text_curves = any(not numeric_curve(c) for c in las.curves)
-    c2 = dict(case, no_curves=(ncur == 0), mixed=(text_curves and any(numeric_curve(c) for c in las.curves)))
+    c2 = case
     try:
         df = las.df()
     except Exception as e:
@@ -515,8 +551,14 @@ def check_df(run, spec_or_las, case, rebuild):
         run.fail("df-index-columns", c2, dict(index=df.index.name, columns=[str(c) for c in df.columns], expected=names))
         return
     cols = [list(df.index.values)] + [list(df.iloc[:, j].values) for j in range(ncur - 1)]
+    def same(a, x, c):
+        if numeric_curve(c) or not df_numeric(c):
+            return df_same(a, x, numeric_curve(c))
+        return df_same_loose(a, x)
+    if any(df_numeric(c) and not numeric_curve(c) for c in las.curves):
+        run.dist["df-numeric-looking-text-curve"] += 1
     for c, col in zip(las.curves, cols):
-        if len(col) != len(c.data) or not all(df_same(a, x, numeric_curve(c)) for a, x in zip(col, c.data)):
+        if len(col) != len(c.data) or not all(same(a, x, c) for a, x in zip(col, c.data)):
             run.fail("df-values", c2, dict(curve=c.mnemonic, expected=repr(list(c.data))[:200], observed=repr(col)[:200]))
             break
     las2 = rebuild()
@@ -529,7 +571,7 @@ def check_df(run, spec_or_las, case, rebuild):
         run.fail("df-roundtrip-names", c2, dict(expected=names, observed=[c.mnemonic for c in las2.curves]))
         return
     for c, c0 in zip(las2.curves, las.curves):
-        if len(c.data) != len(c0.data) or not all(df_same(a, x, numeric_curve(c0)) for a, x in zip(c.data, c0.data)):
+        if len(c.data) != len(c0.data) or not all(same(a, x, c0) for a, x in zip(c.data, c0.data)):
             run.fail("df-roundtrip-values", c2, dict(curve=c0.mnemonic, expected=repr(list(c0.data))[:200], observed=repr(list(c.data))[:200]))
             break
 
@@ -556,11 +598,14 @@ def eval_expr(e, idx):
     return v * k if op == "mul" else v / k
 
 
-def check_units(run, units4, arg, pend, tag, expect="compute"):
+def check_units(run, units4, arg, pend, tag):
+    check_unit_text(run, unit_doc(*units4), arg, pend, tag)
+
+
+def check_unit_text(run, text, arg, pend, tag):
     import lasio
     from lasio import defaults, exceptions
     np = np_()
-    text = unit_doc(*units4)
     case = {"text": text, "index_unit": arg}
     try:
         las = lasio.read(text, index_unit=arg) if arg is not None else lasio.read(text)
@@ -570,7 +615,7 @@ def check_units(run, units4, arg, pend, tag, expect="compute"):
     cands = [las.well[m].unit for m in ("STRT", "STOP", "STEP") if m in las.well]
     if len(las.curves):
         cands.append(las.curves[0].unit)
-    matched = sorted({k for k, ps in defaults.DEPTH_UNITS.items() for u in cands if u.casefold() in {p.casefold() for p in ps}})
+    matched = sorted({k for k, ps in unit_table().items() for u in cands if u.casefold() in {p.casefold() for p in ps}})
     run.case(case, nontrivial=bool(matched), tags=[tag, "matched=%d" % len(matched)])
     iu = las.index_unit
     if arg is None or arg == "":
@@ -595,7 +640,7 @@ def check_units(run, units4, arg, pend, tag, expect="compute"):
     if (dm is None) != (dft is None):
         run.fail("depth-defined-together", case, dict(index_unit=iu))
     if len(las.curves):
-        if iu in defaults.DEPTH_UNITS and dm is None:
+        if iu in unit_table() and dm is None:
             run.fail("depth-undefined-for-recognised-unit", case, dict(index_unit=iu))
         if iu is None and dm is not None:
             run.fail("depth-defined-without-unit", case, None)
@@ -616,16 +661,32 @@ def check_units(run, units4, arg, pend, tag, expect="compute"):
 
 
 SIGMA = ([chr(c) for c in range(0x20, 0x7F)] + [chr(c) for c in range(0xA0, 0x100) if c not in (0xDF, 0xB5, 0xFF)] +
-         [chr(c) for c in range(0x400, 0x460)] + [chr(c) for c in range(0x391, 0x3CA) if c not in (0x3A2, 0x3C2)])
+         [chr(c) for c in range(0x400, 0x460)] + [chr(c) for c in range(0x391, 0x3AA) if c != 0x3A2] +
+         [chr(c) for c in range(0x3B1, 0x3CA) if c != 0x3C2])
 
 
 # ------------------------------------------------------------------------------------------------ run
+def ask_safe(run, reqs, limit=30000):
+    """Model.ask writes a whole chunk before reading: keep every chunk below the pipe buffer size so that neither side can block"""
+    out, part, size = [], [], 0
+    for r in reqs:
+        n = len(json.dumps(r, ensure_ascii=True)) + 1
+        if part and size + n > limit:
+            out += run.model.ask(part, chunk=len(part))
+            part, size = [], 0
+        part.append(r)
+        size += n
+    if part:
+        out += run.model.ask(part, chunk=len(part))
+    return out
+
+
 def flush(run, pend):
     if not pend or run.model is None:
         pend.clear()
         return
     np = np_()
-    answers = run.model.ask([p[2] for p in pend], chunk=128)
+    answers = ask_safe(run, [p[2] for p in pend])
     for (stream, case, req, real), m in zip(pend, answers):
         run.traces += 1
         if stream == "depth":
@@ -651,6 +712,26 @@ def check_object(run, spec, pend, kind, excel=False, full_csv=True):
     check_json(run, las, case, pend)
     check_csv(run, las, case, pend, full=full_csv)
     check_df(run, las, case, lambda: build(spec))
+    if excel:
+        check_excel(run, las, case)
+
+
+REPAIRED_TEXTS = [
+    # header only, no curves: to_csv()/df() raised ValueError (fixed 954ed3f)
+    "~V\nVERS. 2.0:\nWRAP. NO:\n~W\nSTRT.M 1:\nSTOP.M 2:\nSTEP.M 1:\nNULL. -999.25:\n",
+    # float curve + text curve: df() left the numeric index/columns as strings under pandas 3 (fixed a15971d)
+    "~V\nVERS. 2.0:\nWRAP. NO:\n~W\nSTRT.M 1:\nSTOP.M 2:\nSTEP.M 1:\nNULL. -999.25:\n~C\nDEPT.M :\nT.X :\nB.Y :\n~A\n1.0 abc 5\n2.0 def -999.25\n",
+]
+
+
+def check_text_object(run, text, pend, kind, excel=True):
+    import lasio
+    case = {"las_text": text}
+    las = lasio.read(text)
+    run.case(case, nontrivial=True, tags=[kind])
+    check_json(run, las, case, pend)
+    check_csv(run, las, case, pend, full=True)
+    check_df(run, las, case, lambda: lasio.read(text))
     if excel:
         check_excel(run, las, case)
 
@@ -700,9 +781,8 @@ def variants(p):
 
 
 def check_all_units(run, pend):
-    from lasio import defaults
     rng = run.rng
-    table = defaults.DEPTH_UNITS
+    table = unit_table()
     others = [None, "", "X", "S"]
     # every spelling x case variant x position (the other candidates absent / blank / unknown)
     for key, ps in table.items():
@@ -758,7 +838,7 @@ def check_case_mapping(run):
     case-insensitivity proof rests on hold for CPython on that alphabet"""
     if run.model is None:
         return
-    answers = run.model.ask([{"op": "vw.upper", "s": c} for c in SIGMA], chunk=256)
+    answers = ask_safe(run, [{"op": "vw.upper", "s": c} for c in SIGMA])
     for c, m in zip(SIGMA, answers):
         run.traces += 1
         real = {"upper": c.upper(), "lower": c.lower()}
@@ -789,9 +869,11 @@ def run(run):
     ]
     for spec in fixed:
         check_object(run, spec, pend, "fixed", excel=True)
+    for text in REPAIRED_TEXTS:
+        check_text_object(run, text, pend, "fixed-text")
     flush(run, pend)
-    n = run.budget(260, 5000)
-    n_excel = run.budget(12, 300)
+    n = run.budget(500, 5000)
+    n_excel = run.budget(20, 300)
     for i in range(n):
         spec = gen_spec(run.rng, excel_safe=(i < n_excel))
         check_object(run, spec, pend, "generated", excel=(i < n_excel), full_csv=(i % 8 == 0))
@@ -806,13 +888,25 @@ def run(run):
         shutil.rmtree(SCRATCH, ignore_errors=True)
 
 
-def classify(failure):
-    c = failure["case"]
-    if failure["clause"] in ("csv-raises", "df-raises") and c.get("no_curves"):
-        return "no-curves-data-raises"
-    if failure["clause"] in ("df-values", "df-roundtrip-values") and c.get("mixed"):
-        return "df-mixed-text-stringified"
-    return None
+def search(run, disagreements):
+    """the tie broke (generated obligation or correspondence): look for an input on which the REAL code violates the property"""
+    pend = []
+    for d in disagreements[:50]:
+        c = d["case"]
+        if "spec" in c:
+            check_object(run, c["spec"], pend, "search", excel=False)
+        elif "text" in c:
+            check_unit_text(run, c["text"], c.get("index_unit"), pend, "search")
+    pend.clear()
+    model, run.model = run.model, None     # oracle only
+    try:
+        for i in range(run.budget(1500, 20000)):
+            check_object(run, gen_spec(run.rng), pend, "search", excel=False, full_csv=(i % 4 == 0))
+            if run.failures:
+                return
+        check_all_units(run, pend)
+    finally:
+        run.model = model
 
 
 def replay(run, payload):
@@ -828,15 +922,10 @@ def replay(run, payload):
         check_csv(run, las, case, pend, full=True)
         check_df(run, las, case, lambda: lasio.read(path))
         check_excel(run, las, case)
+    elif "las_text" in case:
+        check_text_object(run, case["las_text"], pend, "replay")
     elif "text" in case:
-        import lasio
-        from lasio import defaults
-        las = lasio.read(case["text"], index_unit=case["index_unit"]) if case.get("index_unit") is not None else lasio.read(case["text"])
-        cands = [las.well[m].unit for m in ("STRT", "STOP", "STEP") if m in las.well] + ([las.curves[0].unit] if len(las.curves) else [])
-        matched = sorted({k for k, ps in defaults.DEPTH_UNITS.items() for u in cands if u.casefold() in {p.casefold() for p in ps}})
-        exp = matched[0] if len(matched) == 1 else None
-        if not case.get("index_unit") and las.index_unit != exp:
-            run.fail("index-unit-detection", case, dict(expected=exp, observed=las.index_unit))
+        check_unit_text(run, case["text"], case.get("index_unit"), pend, "replay")
     return not run.failures
 
 
